@@ -211,6 +211,9 @@ func checkC15(c *Ctx) {
 	for _, f := range replaySlogCaller() {
 		c.Violation(f.Key, f.What, nil)
 	}
+	for _, f := range replayPanicStack() {
+		c.Violation(f.Key, f.What, nil)
+	}
 	c.Set("chains", int64(n))
 	c.Set("exhaustive", true)
 	c.Set("rule", "every chain of <=4 (thorough 5) conversions/options of CallerSkip.tla x every front end of the resulting logger kind x Info and Warn (stack threshold); deep stacks of 1..300 frames with an emptied stack pool; the slog handler for slog levels -8..12 x thresholds")
@@ -230,6 +233,17 @@ func replayCallerSkip(b csBeh, seed int64, depth int) (finds []Finding) {
 	}()
 	core, logs := observer.New(zapcore.DebugLevel)
 	annotateAt := rng.Intn(len(b.Chain) + 1)
+	if seed%2 == 0 {
+		annotateAt = 0 // then every logger met along the chain is annotated and is re-used at the end
+	}
+	type snap struct {
+		l     *zap.Logger
+		s     *zap.SugaredLogger
+		sug   bool
+		extra int
+	}
+	var snaps []snap
+	extraNow := 0
 	annot := []zap.Option{zap.AddCaller(), zap.AddStacktrace(zapcore.WarnLevel)}
 	var l *zap.Logger
 	var s *zap.SugaredLogger
@@ -273,6 +287,36 @@ func replayCallerSkip(b csBeh, seed int64, depth int) (finds []Finding) {
 				s = s.WithOptions(annot...)
 			} else {
 				l = l.WithOptions(annot...)
+			}
+		}
+		if op == "AddCallerSkip1" {
+			extraNow++
+		} else if op == "AddCallerSkip2" {
+			extraNow += 2
+		}
+		snaps = append(snaps, snap{l, s, sug, extraNow})
+	}
+	// converting or deriving must not disturb the loggers it started from: every logger met along the chain is
+	// used again now, after all later conversions
+	if annotateAt == 0 && depth == 0 {
+		for si, sn := range snaps[:max0(len(snaps)-1)] {
+			if sn.extra > 11 {
+				continue
+			}
+			w := &c15w{l: sn.l, s: sn.s, fe: 2, lvl: zapcore.InfoLevel}
+			if sn.sug {
+				w.fe = 8
+			}
+			logs.TakeAll()
+			c15fs[sn.extra](w)
+			es := logs.TakeAll()
+			wantFn := fmt.Sprintf("main.c15f%d", sn.extra)
+			if len(es) != 1 || !es[0].Caller.Defined || es[0].Caller.Function != wantFn || es[0].Caller.Line != w.lines[sn.extra] {
+				got := "nothing"
+				if len(es) == 1 {
+					got = fmt.Sprintf("%s:%d (%s)", es[0].Caller.File, es[0].Caller.Line, es[0].Caller.Function)
+				}
+				add("C15/caller-differs", "the logger obtained after step %d of the chain, used again after the later conversions, reports caller %s; its call site is c15.go:%d (%s)", si+1, got, w.lines[sn.extra], wantFn)
 			}
 		}
 	}
@@ -375,6 +419,47 @@ func c15slog(lg *slog.Logger, lvl slog.Level, line *int) {
 //go:noinline
 func c15slogInfo(lg *slog.Logger, line *int) {
 	*line = c15ln(); lg.Info("m", "k", 1)
+}
+
+//go:noinline
+func c15panicInner(p *int) int { return *p } // nil dereference
+
+//go:noinline
+func c15panicOuter(l *zap.Logger, s *zap.SugaredLogger) {
+	defer func() {
+		r := recover()
+		if s != nil {
+			s.Warnw("recovered", "r", fmt.Sprint(r))
+		} else {
+			l.Warn("recovered", zap.Any("r", fmt.Sprint(r)))
+		}
+	}()
+	c15panicInner(nil)
+}
+
+// replayPanicStack: an entry logged from a deferred function while a panic unwinds still shows the whole chain.
+func replayPanicStack() (finds []Finding) {
+	core, logs := observer.New(zapcore.DebugLevel)
+	l := zap.New(core, zap.AddCaller(), zap.AddStacktrace(zapcore.WarnLevel))
+	for _, sug := range []bool{false, true} {
+		logs.TakeAll()
+		if sug {
+			c15panicOuter(nil, l.Sugar())
+		} else {
+			c15panicOuter(l, nil)
+		}
+		es := logs.TakeAll()
+		if len(es) != 1 {
+			continue
+		}
+		for _, fn := range []string{"main.c15panicInner\n", "main.c15panicOuter\n", "main.replayPanicStack\n", "main.main\n"} {
+			if !strings.Contains(es[0].Stack, fn) {
+				finds = append(finds, Finding{Key: "C15/stack-incomplete", What: fmt.Sprintf("an entry logged from a deferred function during a panic (sugared=%v): the stack lacks %q: %q", sug, strings.TrimSpace(fn), tailStr(es[0].Stack, 600))})
+				break
+			}
+		}
+	}
+	return finds
 }
 
 func replaySlogCaller() (finds []Finding) {
